@@ -304,6 +304,9 @@ var TG={get x(){return this._x},set x(v){this._x=v},_x:1};
 function TF(a,b){delete arguments[0];arguments[1]='w';return String(a)+b}
 var TR=/t(\d)/g, TD=new Date(86400000), TE=new RangeError('tpl');
 var TC=(function(){var n=0;return function(){return ++n}})();
+var TSO={_s:0,set s(v){this._s=v}}, TGO={get g(){return this._g|0},_g:3};
+var TBT=function(x){this.acc=(this.acc|0)+x;return this.acc}.bind({acc:0});
+var TBG=function(){return typeof this.T0}.bind(this);
 var TS=new String('é€\ud834\udd1exyz'), TS2=new String('plain');
 function __spin(){}
 `
@@ -1063,6 +1066,8 @@ var jsFragments = []string{
 	"rec(TC()+','+TC())",
 	"TR.lastIndex=0;rec(TR.exec('t1t2')+':'+TR.lastIndex);TD.setTime(TD.getTime()+1);rec(TD.getTime());TE.message+='!';rec(String(TE))",
 	"rec(TS[1]+TS[2]+TS[3]+TS.length+TS2[0]+TS.charAt(0))",
+	"TSO.s=TC();rec(TSO._s+':'+TGO.g);TGO._g=TSO._s",
+	"rec(TBT(1)+','+TBT(2)+','+TBG())",
 	"Math.random();Math.random();",
 	"if(typeof gs!=='undefined'){rec(gs.Name+gs.Count+gs.Sum(2,3)+gs.Tags.length+gs.M.k);gs.Count=gs.Count+1;rec(gs.Count)}",
 	"if(typeof gs!=='undefined'){gs.Tags[0]='z';gs.M.q=5;rec(gs.Tags.join()+Object.keys(gs.M).sort().join()+JSON.stringify(gs.Tags)+gs.Name)}",
